@@ -103,8 +103,7 @@ def forbidden_tokens():
 
 
 def audit(module):
-    """Returns {theorem: [axioms]} for every theorem declared in `module` whose name
-    lies in the module's own namespace.  Cached on the hash of the compiled olean."""
+    """Returns {theorem: [axioms]} for every theorem declared in `module`.  Cached on the hash of the compiled olean."""
     rel = module.replace(".", "/")
     olean = os.path.join(LEAN, ".lake", "build", "lib", "lean", rel + ".olean")
     if not os.path.exists(olean):
@@ -115,7 +114,7 @@ def audit(module):
     cpath = os.path.join(cdir, module + ".json")
     try:
         c = json.load(open(cpath))
-        if c["hash"] == h:
+        if c["hash"] == h and c.get("v") == 2:
             return c["thms"]
     except Exception:
         pass
@@ -128,9 +127,11 @@ def audit(module):
     thms = {}
     for line in p.stdout.splitlines():
         m = re.match(r"AUDIT (\S+) \[(.*)\]$", line)
-        if m and m.group(1).startswith(module + "."):
+        # the template lists only constants DECLARED in this module, so every theorem of a Props file counts whatever namespace it is
+        # stated in (several builder-written Props files state their theorems in the model's namespace)
+        if m:
             thms[m.group(1)] = [a.strip() for a in m.group(2).split(",") if a.strip()]
-    json.dump({"hash": h, "thms": thms}, open(cpath, "w"))
+    json.dump({"hash": h, "v": 2, "thms": thms}, open(cpath, "w"))
     return thms
 
 
